@@ -17,7 +17,7 @@ RULE = (
     "maximum, or a basin that straddles the 0/360 seam; distinct by canonical hash of the case."
 )
 ASSUMPTIONS = [
-    "constant spectra (max-min < 1e-9) are outside C04 by its own wording; they are only checked to give an all-zero map",
+    "constant spectra (max-min < 1e-9) are outside C04 by its own wording; they are only checked to give a uniform map (a single basin)",
     "the native driver links the tree's specpart.c standalone (same source, not the same binary as the extension); the hypothesis facet ties the two together by comparing label maps",
     "regional maxima are taken on the spectrum discretised with the documented formula, recomputed independently in float64 from the float32 input",
 ]
@@ -94,7 +94,7 @@ def small_case(draw):
 def big_case(draw):
     nk = draw(st.integers(1, 32))
     nth = draw(st.integers(1, 48))
-    return dict(nk=nk, nth=nth, ihmax=draw(st.sampled_from(IHS + [50, 200])), spec=draw(gen.spectrum()), shift=draw(st.integers(0, 47)))
+    return dict(nk=nk, nth=nth, ihmax=draw(st.sampled_from(IHS + [50, 200])), spec=draw(gen.spectrum(kinds=gen.MULTI_KINDS)), shift=draw(st.integers(0, 47)))
 
 
 def check_big(case, ctx):
